@@ -412,6 +412,19 @@ func (fc *FuncCtx) callNamed(key string, fn *types.Func, args []Term, call *ast.
 			return res
 		}
 	}
+	// a call site the caller's contract asks to inline (the callee's loops get call-site invariants)
+	if call != nil && ref != nil && ref.Decl.Body != nil && fc.inlineSite == "" {
+		site := fmt.Sprintf("%s#%d", fc.callName[call], fc.callOrd[call])
+		if _, named := fc.callName[call]; named && fc.Con.InlineAt[site] {
+			fc.Deps[key+" (body inlined at call site "+site+" with call-site loop invariants)"] = true
+			save := fc.inlineSite
+			fc.inlineSite = site
+			fc.inlineRef = ref
+			res := fc.inlineCall(ref, fn, args, call, st)
+			fc.inlineSite = save
+			return res
+		}
+	}
 	// recursion / self call must go through the contract
 	if con != nil && !con.Inline && !(con.InlineCalls && key != fc.Ref.Key && ref != nil) {
 		return fc.callByContract(con, ref, fn, args, call, st)
@@ -520,6 +533,9 @@ func (fc *FuncCtx) tsubstFor(call *ast.CallExpr, fn *types.Func) map[string]*Sor
 // inlineCall executes the callee body in the caller's state and merges its return paths.
 func (fc *FuncCtx) inlineCall(ref *FuncRef, fn *types.Func, args []Term, call *ast.CallExpr, st *St) []Term {
 	ts := fc.tsubstFor(call, fn)
+	if call == nil && fc.fvTArgs != nil {
+		ts = fc.fvTArgs
+	}
 	saveTs := fc.tsubst
 	if ts != nil {
 		fc.tsubst = ts
@@ -599,7 +615,14 @@ func (fc *FuncCtx) callFuncVal(fv *FuncVal, args []Term, call *ast.CallExpr, st 
 		if fv.Ref != nil {
 			fn = fv.Ref.Obj
 		}
-		return fc.callNamed(fv.Name, fn, args, nil, st)
+		save := fc.fvTArgs
+		saveSig := fc.fvSig
+		fc.fvTArgs = fv.TArgs
+		fc.fvSig = fv.Sig
+		res := fc.callNamed(fv.Name, fn, args, nil, st)
+		fc.fvTArgs = save
+		fc.fvSig = saveSig
+		return res
 	case "lit":
 		return fc.inlineLit(fv, args, st)
 	}
@@ -860,6 +883,8 @@ func (fc *FuncCtx) callByContract(con *Contract, ref *FuncRef, fn *types.Func, a
 	}
 	if call != nil && fn != nil {
 		env.tparams = fc.tsubstFor(call, fn)
+	} else if call == nil && fc.fvTArgs != nil {
+		env.tparams = fc.fvTArgs
 	}
 	ord := ""
 	if call != nil {
@@ -1002,6 +1027,9 @@ func (fc *FuncCtx) callByContract(con *Contract, ref *FuncRef, fn *types.Func, a
 				rtypes = append(rtypes, t)
 			}
 		} else {
+			if fc.fvSig != nil {
+				sig = fc.fvSig
+			}
 			for i := 0; i < sig.Results().Len(); i++ {
 				rtypes = append(rtypes, sig.Results().At(i).Type())
 			}
@@ -1142,9 +1170,25 @@ func (fc *FuncCtx) panicCondOf(fv *FuncVal, args []Term, st *St, depth int) (con
 		case *ast.ExprStmt:
 			ce = s.X
 		}
-		call, ok := ast.Unparen(ce).(*ast.CallExpr)
-		if ce == nil || !ok {
+		if ce == nil {
 			return False, nil, false
+		}
+		call, ok := ast.Unparen(ce).(*ast.CallExpr)
+		if !ok {
+			// a plain expression (field access, arithmetic without division, ...) cannot panic
+			bad := false
+			ast.Inspect(ce, func(n ast.Node) bool {
+				switch x := n.(type) {
+				case *ast.CallExpr, *ast.IndexExpr, *ast.SliceExpr, *ast.TypeAssertExpr, *ast.StarExpr:
+					bad = true
+				case *ast.BinaryExpr:
+					if x.Op.String() == "/" || x.Op.String() == "%" {
+						bad = true
+					}
+				}
+				return !bad
+			})
+			return False, nil, !bad
 		}
 		work := st.clone()
 		for k, v := range fv.Env.vars {
